@@ -367,6 +367,58 @@ def queue_full_session(seed):
     return s.ops
 
 
+def bad_group_session(seed):
+    """C16 / C03 / C09: the application sends MALFORMED partial sequences - a second initial fragment while a reliable group is still
+    open, a stray final, fragments of the other reliability in between, a plain reliable bunch in mid-group - so the receiver refuses
+    fragments (merge failed / fatal).  Refused fragments must be released, nothing may leak at teardown, no callback may mix groups.
+    Delivery of everything sent is NOT expected here (the library drops what it refuses): judged by the robustness monitors only."""
+    rng = random.Random(seed)
+    s = Session(rng)
+    s.op("reset")
+    s.op("conn 1")
+    s.op("conn 2")
+    a_out, b_out = seq_choice(rng), seq_choice(rng)
+    s.op("seqinit 1 %d %d" % (b_out, a_out))
+    s.op("seqinit 2 %d %d" % (a_out, b_out))
+    s.note("peers 1 2")
+    s.note("hostile")
+    ch = rng.choice([1, 3, 64])
+    s.op("send 1 %d 9 0 1 8 %d" % (ch, s.next_pseed()))
+    drain(s, 1, 2, rounds=1)
+    REL, PART, INIT, FIN = 8, 64, 128, 256
+    for _ in range(rng.randint(2, 6)):
+        rel = rng.choice([REL, REL, 0])
+        other = REL - rel
+        pat = rng.choice(["init-init", "init-init-fin", "init-plain-fin", "init-otherinit", "fin-only", "init-mid-otherfin", "init-init-otherfin"])
+        seqs = {"init-init": [rel | PART | INIT, rel | PART | INIT],
+                "init-init-fin": [rel | PART | INIT, rel | PART | INIT, rel | PART | FIN],
+                "init-plain-fin": [rel | PART | INIT, rel, rel | PART | FIN],
+                "init-otherinit": [rel | PART | INIT, other | PART | INIT, other | PART | FIN],
+                "fin-only": [rel | PART | FIN],
+                "init-mid-otherfin": [rel | PART | INIT, rel | PART, other | PART | FIN],
+                "init-init-otherfin": [rel | PART | INIT, rel | PART | INIT, other | PART | FIN]}[pat]
+        together = rng.random() < 0.5
+        for fl in seqs:
+            s.op("send 1 %d %d 0 0 %d %d" % (ch, fl, rng.choice([0, 8, 16]), s.next_pseed()))
+            if not together:
+                s.op("flush 1")
+                if rng.random() < 0.15:
+                    s.op("drop 1")          # lost: comes again (if reliable), possibly out of the waiting queue
+                else:
+                    s.op("dln 2 1")
+        if together:
+            s.op("flush 1")
+            s.op("dln 2 1")
+        if rng.random() < 0.5:
+            drain(s, 1, 2, rounds=2)
+    drain(s, 1, 2, rounds=6)
+    s.op("nodes")
+    s.op("uninit 1")
+    s.op("uninit 2")
+    s.op("reset")
+    return s.ops
+
+
 def wrap_partial_session(seed):
     """C03 / C13: unreliable (and reliable) partial groups whose fragments travel in consecutive packets on either side of the 14-bit
     packet-sequence wrap and of the 10-bit channel-sequence wrap; no loss, so every group must be delivered"""
@@ -880,6 +932,10 @@ def wrapper_pair(seed):
     rng = random.Random(seed)
     pre = ["reset", "conn 1", "conn 2"]
     a_out, b_out = seq_choice(rng), seq_choice(rng)
+    if rng.random() < 0.4:
+        # a connection that has been up for a while: the full packet ids are far beyond the 14-bit wire sequence (and beyond 16 bits)
+        a_out += 16384 * rng.choice([3, 4, 4, 5, 8, 61, 1024])
+        b_out += 16384 * rng.choice([0, 3, 4, 4, 8, 1024])
     pre += ["seqinit 1 %d %d" % (b_out, a_out), "seqinit 2 %d %d" % (a_out, b_out), "#! peers 1 2"]
     s = Session(rng)
     pre.append("send 1 1 9 0 1 8 %d" % s.next_pseed())
@@ -999,9 +1055,15 @@ def unit_session(seed, n=400):
         elif r < 0.85:
             k = rng.randint(1, 32)
             ops.append("bbwrapped %d %d %d" % (rng.randint(0, (1 << 32) - 1), 1 << k if k < 32 else (1 << 32) - 1, rng.randint(0, 63)))
-        elif r < 0.93:
+        elif r < 0.90:
             v = rng.choice([0, 1, 127, 128, 16383, 16384, 2097151, 2097152, 268435455, 268435456, 4294967295, rng.randint(0, 4294967295)])
             ops.append("bbpacked %d %d" % (v, rng.randint(0, 63)))
+        elif r < 0.95:
+            # a read from a buffer that is too short (by 1 .. all of its bits): failure must leave the cursor inside the buffer
+            kind = rng.choice([0, 1, 2, 2])
+            mx = rng.choice([2, 3, 16, 17, 255, 256, 1024, 65536, (1 << 32) - 1, rng.randint(2, 70000)]) if kind != 1 else (1 << rng.randint(1, 31))
+            v = rng.choice([0, 1, 127, 128, 16383, 16384, 2097151, 2097152, 268435455, 268435456, 4294967295, rng.randint(0, 4294967295)]) if kind == 2 else rng.randint(0, mx - 1)
+            ops.append("bbcut %d %d %d %d %d" % (kind, v, mx, rng.randint(0, 63), rng.choice([1, 1, 2, 7, 8, 9, 15, 16, rng.randint(1, 40)])))
         else:
             # a run of bits of any length at any bit offset (the byte-level copy routine with its lead-in / lead-out masks)
             ops.append("bbbits %d %d %d" % (rng.choice([0, 1, 7, 8, 9, 15, 16, 17, 27, 63, 64, 65, rng.randint(0, 2048)]), rng.randint(0, 63), rng.randint(1, 1 << 30)))
